@@ -1,14 +1,116 @@
-(* C20 property theorems. Nothing but statements closed by `exact lemma` and Print Assumptions. *)
-From Coq Require Import ZArith List Bool.
-From OG Require Import C20.Model C20.Proofs.
+(* C20 property theorems. Nothing but statements closed by `exact lemma`, Print Assumptions, and Examples showing
+   that the hypotheses are satisfiable. All theorems are about the REPAIRED variant of the model
+   (checkRangeRightBound returns the accumulated res; index bounds are never rewritten); Refuted.v shows that
+   both deviations of today's code break them. *)
+From Coq Require Import ZArith List Bool Arith Sorted.
+From OG Require Import C20.Model C20.Proofs C20.Cover C20.ScanProofs.
 Import ListNotations.
-Open Scope Z_scope.
 
 (* mark_sound: CheckInRange over a hyper-rectangle never says "cannot be true" when some row of the rectangle
-   satisfies the condition (for every condition tree NewKeyCondition accepts, every rectangle, every row; a null
-   column value is admitted in every column range). *)
+   satisfies the condition - for every condition tree NewKeyCondition accepts, every rectangle, every row. The RPN
+   stack machine computes exactly the mark defined on the tree. *)
 Theorem C20_mark_sound : forall isint nonkey c rpn rgs row,
   compile isint c = Some rpn -> rect_has rgs row -> eval_cond nonkey c row = true ->
   check_in_range rpn rgs = Some (mark_of isint c rgs) /\ can_t (mark_of isint c rgs) = true.
 Proof. exact mark_sound. Qed.
 Print Assumptions C20_mark_sound.
+
+(* rect_cover: the hyper-rectangles checkInAnyRange generates for the key interval [L,R] (common prefix, middle,
+   left bound, right bound, recursively) cover every key tuple lexicographically between L and R. *)
+Theorem C20_rect_cover : forall L R tys ts,
+  length R = length L -> length ts = length L -> (length L <= length tys)%nat ->
+  lex_le L (map kb ts) -> lex_le (map kb ts) R ->
+  can_t (ciar repaired (fun rs => mkM (in_rectb ts rs) true) tys L R true true []) = true.
+Proof. exact rect_cover. Qed.
+Print Assumptions C20_rect_cover.
+
+(* OR-ing a call-back's marks over the cover is sound (with every early exit), whatever the call-back *)
+Theorem C20_any_range_sound : forall cb L tys R lb rb pre ts,
+  length R = length L -> length ts = length L -> (length L <= length tys)%nat ->
+  (lb = true -> lex_le L (map kb ts)) ->
+  (rb = true -> lex_le (map kb ts) R) ->
+  (forall rs, Forall2 inrect rs ts -> can_t (cb (pre ++ rs)) = true) ->
+  can_t (ciar repaired cb tys L R lb rb pre) = true.
+Proof. exact ciar_sound. Qed.
+Print Assumptions C20_any_range_sound.
+
+(* C20_may_be_sound: for every sorted key list cut into non-empty fragments of any sizes, every accepted condition
+   tree and every s <= i < e: if fragment i contains a row that satisfies the condition then MayBeInRange over the
+   index rows s and e answers true. *)
+Theorem C20_may_be_sound : forall isint nonkey c rpn keys sizes nk s i e row,
+  compile isint c = Some rpn ->
+  sorted_lex keys -> Forall (fun k => length k = nk) keys ->
+  (used_keys rpn <= nk)%nat -> (used_keys rpn <= length isint)%nat ->
+  Forall (fun z => 1 <= z)%nat sizes -> sum sizes = length keys ->
+  (s <= i)%nat -> (i < e)%nat -> (e <= length sizes)%nat ->
+  In row (frag_rows sizes keys i) -> eval_cond nonkey c row = true ->
+  may_range repaired isint rpn (build_index sizes keys) s e = true.
+Proof. exact may_be_sound. Qed.
+Print Assumptions C20_may_be_sound.
+
+(* binary search and exclusion search keep every fragment with a match, for any range predicate that is sound in
+   the sense of C20_may_be_sound, any coarse-index setting and any seek threshold *)
+Theorem C20_scan_binary_sound : forall (may : nat -> nat -> bool) n (hasmatch : nat -> Prop),
+  (forall s i e, s <= i -> i < e -> e <= n -> hasmatch i -> may s e = true)%nat ->
+  forall i, (i < n)%nat -> hasmatch i -> covered i (scan_binary may n) = true.
+Proof. exact scan_binary_sound. Qed.
+Print Assumptions C20_scan_binary_sound.
+
+Theorem C20_scan_exclusion_sound : forall (may : nat -> nat -> bool) n (hasmatch : nat -> Prop),
+  (forall s i e, s <= i -> i < e -> e <= n -> hasmatch i -> may s e = true)%nat ->
+  forall coarse minmarks i, (i < n)%nat -> hasmatch i -> covered i (scan_exclusion may coarse minmarks n) = true.
+Proof. exact scan_exclusion_sound. Qed.
+Print Assumptions C20_scan_exclusion_sound.
+
+(* C20_scan_sound: Scan returns ranges (no error) and every fragment that contains a satisfying row lies in one *)
+Theorem C20_scan_sound : forall isint nonkey c rpn keys sizes nk coarse minmarks i,
+  compile isint c = Some rpn ->
+  sorted_lex keys -> Forall (fun k => length k = nk) keys ->
+  (used_keys rpn <= nk)%nat -> (used_keys rpn <= length isint)%nat ->
+  Forall (fun z => 1 <= z)%nat sizes -> sum sizes = length keys ->
+  (2 <= coarse)%nat -> (i < length sizes)%nat ->
+  frag_matches nonkey c sizes keys i ->
+  exists rs, scan repaired isint rpn (build_index sizes keys) (length sizes) coarse minmarks = ScanOk rs /\
+             covered i rs = true.
+Proof. exact scan_sound. Qed.
+Print Assumptions C20_scan_sound.
+
+(* whichever strategy CanDoBinarySearch picks *)
+Theorem C20_both_strategies_sound : forall isint nonkey c rpn keys sizes nk coarse minmarks i,
+  compile isint c = Some rpn ->
+  sorted_lex keys -> Forall (fun k => length k = nk) keys ->
+  (used_keys rpn <= nk)%nat -> (used_keys rpn <= length isint)%nat ->
+  Forall (fun z => 1 <= z)%nat sizes -> sum sizes = length keys ->
+  (i < length sizes)%nat -> frag_matches nonkey c sizes keys i ->
+  let may := may_range repaired isint rpn (build_index sizes keys) in
+  covered i (scan_binary may (length sizes)) = true /\
+  covered i (scan_exclusion may coarse minmarks (length sizes)) = true.
+Proof. exact both_strategies_sound. Qed.
+Print Assumptions C20_both_strategies_sound.
+
+(* ---------- the hypotheses are satisfiable: the refutation witnesses of Refuted.v, under the repaired model ---------- *)
+Open Scope Z_scope.
+Definition ex_keys : list key := [[Some 3; Some 2]; [Some 3; Some 5]; [Some 4; Some 0]; [Some 4; Some 1]; [Some 4; None]].
+Definition ex_cond : cond := CAnd (CAtom 0 Ceq 3) (CAtom 1 Cne 1).
+
+Example C20_example_hypotheses :
+  sorted_lex ex_keys /\ Forall (fun k => length k = 2%nat) ex_keys /\
+  Forall (fun z => 1 <= z)%nat [3%nat; 2%nat] /\ sum [3%nat; 2%nat] = length ex_keys /\
+  (exists rpn, compile [false; true] ex_cond = Some rpn /\ used_keys rpn = 2%nat) /\
+  frag_matches (fun _ => false) ex_cond [3%nat; 2%nat] ex_keys 0.
+Proof.
+  split; [|split; [|split; [|split; [|split]]]].
+  - unfold sorted_lex, ex_keys.
+    repeat (first [apply SSorted_cons | apply SSorted_nil | apply Forall_cons | apply Forall_nil]); unfold key_le;
+      repeat (simpl; first [exact I | left; reflexivity | right; split; [reflexivity|]]).
+  - repeat constructor.
+  - repeat constructor.
+  - reflexivity.
+  - eexists. split; reflexivity.
+  - exists [Some 3; Some 2]. split; [left; reflexivity | reflexivity].
+Qed.
+
+Example C20_example_scan :
+  exists rpn, compile [false; true] ex_cond = Some rpn /\
+    scan repaired [false; true] rpn (build_index [3%nat; 2%nat] ex_keys) 2 8 0 = ScanOk [(0, 1)%nat].
+Proof. eexists. split; [vm_compute; reflexivity|]. vm_compute. reflexivity. Qed.
